@@ -14,6 +14,22 @@ built by this file from the attributes of the items: per section the list of
 (original mnemonic, unit, value, descr) with numeric values compared numerically,
 the ~Other text, and the per-curve data arrays compared exactly and NaN-aware.
 Nothing is compared against x: only lasio's own output has to be a fixed point.
+
+Clauses: own-output-readable / own-output-rewritable (a re-read or re-write of
+lasio's own text raises), same-version-items, same-well-items, same-curve-items,
+same-parameter-items, same-other-section, same-curve-data.  All clauses failing at
+the first failing cycle are reported (one each).
+
+klass (input shape only, never the symptom, never the file name):
+  src=corpus|gen ; mut=<kind>@<section>|none ; ver=<effective>(opt|file) ;
+  wrap=<T|F>(opt|file) ; idxfmt=exact|lossy (does fmt reproduce the index values of
+  the input?) ; wraplines=row-per-line|uniform-short|ragged|- (token counts of the
+  first 22 wrapped lines in a reference layout of the input's data: all equal to the
+  number of curves / all equal but different / mixed) ; shape=<1|N>x<1|N> (curves x
+  rows) ; dlm=<DLM item of the input> ; strdata=none|plain|spaces ; dotunit=0|1 (a
+  header line with '..x' left of the colon, e.g. a .1IN unit) ; for the clauses that
+  depend on the data layout also fmt, lnf, sp, mh ; for generated files the name
+  scheme, whether ~P is empty and (data clauses) the value kind.
 """
 import sys
 import os
@@ -22,6 +38,7 @@ import common
 from common import Run, main
 
 import io
+import re
 import glob
 import textwrap
 import json
@@ -86,9 +103,11 @@ def gen_params(rng):
         "idx": rng.choice(IDXKINDS),
         "val": rng.choice(VALKINDS),
         "names": rng.choice(NAMEKINDS),
-        "unit": rng.choice(["M", "FT", "", ".1IN"]),
+        "unit": rng.choice(["M", "FT", "", "M", "FT", "", "M", ".1IN"]),
         "other": rng.choice([0, 1]),
         "params": rng.choice([0, 1, 1]),
+        "pad": rng.choice([0, 1]),
+        "dlm": rng.choice([""] * 7 + ["SPACE", "COMMA", "TAB"]),
         "s": rng.randrange(10 ** 6),
     }
 
@@ -136,20 +155,25 @@ def gen_text(p):
         else:
             names.append((pool[j % len(pool)] + ("" if j < len(pool) else str(j))).lower())
     u = p["unit"]
+    pad = "  " if p.get("pad", 0) else ""
     step = (idx[1] - idx[0]) if nr > 1 else 0.0
     t = ["~Version Information",
          " VERS.   %s : CWLS LOG ASCII STANDARD" % p["vers"],
-         " WRAP.   %s : wrap mode" % p["wrap"],
-         "~Well Information",
-         " STRT.%s  %.4f : START DEPTH" % (u, idx[0]),
-         " STOP.%s  %.4f : STOP DEPTH" % (u, idx[-1]),
-         " STEP.%s  %.4f : STEP" % (u, step),
+         " WRAP.   %s : wrap mode" % p["wrap"]]
+    dlm = p.get("dlm", "")
+    if dlm:
+        t.append(" DLM .   %s : delimiter" % dlm)
+    sep = {"": " ", "SPACE": " ", "COMMA": ",", "TAB": "\t"}[dlm]
+    t += ["~Well Information",
+         " STRT%s.%s  %.4f : START DEPTH" % (pad, u, idx[0]),
+         " STOP%s.%s  %.4f : STOP DEPTH" % (pad, u, idx[-1]),
+         " STEP%s.%s  %.4f : STEP" % (pad, u, step),
          " NULL.   -999.25 : NULL VALUE"]
     if p["vers"] == "1.2":
         t += [" COMP.   COMPANY : ANY OIL COMPANY INC.", " WELL.   WELL : ANY ET AL 12-34", " UWI .   UNIQUE WELL ID : 100123401234W500"]
     else:
         t += [" COMP.   ANY OIL COMPANY INC. : COMPANY", " WELL.   ANY ET AL 12-34 : WELL", " UWI .   100123401234W500 : UNIQUE WELL ID"]
-    t += ["~Curve Information", " DEPT.%s   : 1 DEPTH" % u]
+    t += ["~Curve Information", " DEPT%s.%s   : 1 DEPTH" % (pad, u)]
     for j, n in enumerate(names):
         t.append(" %s.%s  %s : %d curve %d" % (n, ["", "GAPI", "K/M3", "OHMM"][j % 4], ["", "45 310 01 00"][j % 2], j + 2, j))
     t += ["~Parameter Information"]
@@ -163,9 +187,9 @@ def gen_text(p):
         if p["wrap"] == "YES":
             t.append(fields[0])
             for k in range(1, len(fields), 6):
-                t.append(" ".join(fields[k:k + 6]))
+                t.append(sep.join(fields[k:k + 6]))
         else:
-            t.append(" ".join(fields))
+            t.append(sep.join(fields))
     return "\n".join(t) + "\n"
 
 
@@ -448,6 +472,23 @@ def wrapped_line_shape(cols, nc, nullstr, o):
     return "uniform-short" if len(set(counts)) == 1 else "ragged"
 
 
+def text_features(text):
+    """dotunit: some header line has '..<non-blank>' left of its first colon (a unit such as .1IN)"""
+    if text is None:
+        return {"dotunit": "na"}
+    dot = 0
+    for ln in text.split("\n"):
+        st = ln.strip()
+        if st[:2].upper() == "~A":
+            break
+        if not st or st[0] in "#~":
+            continue
+        if re.search(r"\.\s*\.[^\s.:]", st.split(":")[0]):
+            dot = 1
+            break
+    return {"dotunit": dot}
+
+
 def features(r, o):
     """shape of the input as first read (before any write), used only for klass"""
     curves = list(list.__iter__(r.sections["Curves"]))
@@ -503,6 +544,7 @@ def run_case(inp):
     except Exception as e:
         return {"status": "skip-first-read-raises", "detail": repr(e)[:200]}
     feat = features(r, opts)
+    feat.update(text_features(x if mut is not None else text))
     try:
         t = write_text(r, opts)
     except Exception as e:
@@ -559,14 +601,17 @@ def klass_of(inp, feat, clause):
                                   "1" if feat.get("nr") == 1 else ("0" if feat.get("nr") == 0 else "N")))
     parts.append("dlm=%s" % (str(feat.get("dlm_in")).upper() if feat.get("dlm_in") is not None else "-"))
     parts.append("strdata=%s" % feat.get("strdata"))
-    if clause in ("same-curve-data", "own-output-readable", "own-output-rewritable", "same-curve-items"):
+    parts.append("dotunit=%s" % feat.get("dotunit"))
+    datalike = clause in ("same-curve-data", "own-output-readable", "own-output-rewritable", "same-curve-items")
+    if datalike:
         parts.append("fmt=%s" % o["fmt"])
         parts.append("lnf=%s" % fmtv(o["len_numeric_field"]))
         parts.append("sp=%d/%d" % (len(o["lhs_spacer"]), len(o["spacer"])))
         parts.append("mh=%d" % bool(o["mnemonics_header"]))
     if src["kind"] == "gen":
         p = src["params"]
-        parts.append("gen=%s/%s/%s/u%s/p%d" % (p["names"], p["idx"], p["val"], p["unit"] or "-", p.get("params", 1)))
+        parts.append("gen=%s/p%d" % (p["names"], p.get("params", 1)) + ("/%s" % p["val"] if datalike else "")
+                     + ("/dotpad%d" % p.get("pad", 0) if p["unit"].startswith(".") else ""))
     return ";".join(parts)
 
 
@@ -607,9 +652,7 @@ def plan(tier, seed):
         for o in (singles if thorough else [singles[0]]) + rng.sample(everything, 12 if thorough else 4):
             add(src, None, o)
         for m in rng.sample(muts, 40 if thorough else 10):
-            add(src, m, rng.choice(ver3))
-            if thorough:
-                add(src, m, rng.choice(everything))
+            add(src, m, rng.choice(hdr))
     return cases
 
 
@@ -659,7 +702,7 @@ def build_run(tier, seed):
         feat = res["feat"]
         nontrivial = res["compared"] >= 2 and feat["nc"] >= 1 and feat["nr"] >= 1 and feat["items"] >= 4
         key = json.dumps([inp["src"], inp["mut"], inp["opts"]], sort_keys=True)
-        run.case(key, nontrivial=nontrivial or st == "fail", sample=inp if (i % 97 == 0) else None)
+        run.case(key, nontrivial=nontrivial, sample=inp if (i % 97 == 0) else None)
         seen = set()
         for clause, detail in res["fails"]:
             if clause in seen:
